@@ -1,12 +1,12 @@
 (** Property C20 - NVIDIA trace-driven simulation conserves work and terminates;
-    parsing a serialised trace returns the structure that was serialised.
+    parsing a serialised trace returns exactly the structure that was serialised.
 
     Model: VNv.NvSim (driver / GPUs / SMs / sub-cores / akita connections and
     event queues), VNv.NvTrace (trace file grammar and tracereader).
-    Proofs: NvSimProofs, NvSimWake, NvSimThm, NvSimPot, NvSimTerm, NvTraceProofs.
+    Proofs: NvSimProofs, NvSimWake, NvSimThm, NvSimPot, NvSimTerm, NvUniform, NvTraceProofs.
     Statements only; every proof is an [exact]. *)
 From Coq Require Import List NArith ZArith Bool Arith String.
-From VNv Require Import NvSim NvSimProofs NvSimWake NvSimThm NvSimPot NvSimTerm NvTrace NvTraceProofs.
+From VNv Require Import NvSim NvSimProofs NvSimWake NvSimThm NvSimPot NvSimTerm NvUniform NvTrace NvTraceProofs.
 Import ListNotations.
 Open Scope Z_scope.
 
@@ -88,6 +88,31 @@ Theorem nv_wf_topob_sound : forall T, wf_topob T = true -> wf_topo T /\ has_kids
 Proof. exact wf_topob_sound. Qed.
 Print Assumptions nv_wf_topob_sound.
 
+(** The platforms the Go builders produce - D devices x S SMs x C sub-cores,
+    any D, S, C >= 1 - are well-formed trees with the three levels GPU / SM /
+    sub-core, so all theorems above apply to them. *)
+Theorem nv_uniform_platform_wf : forall D S C : nat,
+  (1 <= D)%nat -> (1 <= S)%nat -> (1 <= C)%nat ->
+  wf_topo (uniform_topo D S C) /\ has_kids (uniform_topo D S C) /\ three_levels (uniform_topo D S C).
+Proof. exact uniform_topo_wf. Qed.
+Print Assumptions nv_uniform_platform_wf.
+
+(** The property in one statement for these platforms: every run is bounded;
+    warps / instructions counted never exceed the trace; and when the engine
+    has nothing left to do every unit is idle and the counts are exact. *)
+Theorem nv_uniform_property : forall (D S C : nat) trace es s,
+  (1 <= D)%nat -> (1 <= S)%nat -> (1 <= C)%nat ->
+  let T := uniform_topo D S C in
+  runs T (init T trace) es s ->
+  Z.of_nat (List.length es) <= mu T (init T trace) /\
+  level_total T s 2 <= Z.of_nat (n_warps trace) /\
+  level_total T s 3 <= Z.of_nat (n_insts trace) /\
+  ((forall e, enabled s e = false) ->
+   (forall u, (u < sizeT T)%nat -> idle_node T (nd s u) u) /\
+   level_total T s 2 = Z.of_nat (n_warps trace) /\ level_total T s 3 = Z.of_nat (n_insts trace)).
+Proof. exact uniform_property. Qed.
+Print Assumptions nv_uniform_property.
+
 (** The same statement is false of the code before the repair ([step1 false]):
     one GPU, one SM, two sub-cores; a kernel whose first block has a warp
     with 0 instructions.  The engine stops with the kernel unfinished, one
@@ -138,15 +163,23 @@ Proof. vm_compute. split; reflexivity. Qed.
 Example three_levels_uniform : wf_topob (uniform_topo 3 4 4) = true /\ wf_topob (uniform_topo 1 1 1) = true.
 Proof. vm_compute. split; reflexivity. Qed.
 
-(** ** Trace files *)
+(** ** Trace files (the repaired reader) *)
 
-(** Parsing the printed line of an instruction returns the instruction on every
-    field the reader fills (PC, mask, destination and source registers, memory
-    width, address-compression mode, stride or deltas, immediate). *)
+(** Parsing the printed line of an instruction returns the instruction: PC,
+    mask, destination and source registers, opcode, memory width,
+    address-compression mode, base address with stride or deltas, or the whole
+    list of addresses of an uncompressed access, and the immediate. *)
 Theorem parse_print_roundtrip : forall i : inst,
   valid i -> parse_inst (print_inst i) = Some (expected i).
 Proof. exact NvTraceProofs.parse_print_roundtrip. Qed.
 Print Assumptions parse_print_roundtrip.
+
+(** Full strength: what the reader returns determines the serialised
+    instruction - nothing that was serialised is lost. *)
+Theorem parse_print_exact : forall i j : inst,
+  valid i -> valid j -> parse_inst (print_inst i) = parse_inst (print_inst j) -> i = j.
+Proof. exact NvTraceProofs.parse_print_exact. Qed.
+Print Assumptions parse_print_exact.
 
 (** Whole kernel files: header, thread-block ids, warp ids, instruction counts
     and every instruction record, for any number of blocks, warps (also 0) and
@@ -156,17 +189,7 @@ Theorem parse_print_kernel_roundtrip : forall k : kernel,
 Proof. exact NvTraceProofs.parse_print_kernel_roundtrip. Qed.
 Print Assumptions parse_print_kernel_roundtrip.
 
-(** What the reader drops: the opcode, every memory address, and the list of
-    an uncompressed address list. *)
-Theorem parse_print_dropped : forall i : inst,
-  valid i ->
-  (exists p, parse_inst (print_inst i) = Some p /\ p_op p = None /\ p_memaddr p = 0) /\
-  parse_inst (print_inst (forget i)) = parse_inst (print_inst i).
-Proof. exact NvTraceProofs.parse_print_dropped. Qed.
-Print Assumptions parse_print_dropped.
-
-(** Hence the property's last sentence at full strength (the parsed structure
-    determines the serialised one) does not hold. *)
-Theorem parse_print_exact_refuted : ~ parse_print_exact.
-Proof. exact NvTraceProofs.parse_print_exact_refuted. Qed.
-Print Assumptions parse_print_exact_refuted.
+Theorem parse_print_kernel_exact : forall k1 k2 : kernel,
+  valid_kernel k1 -> valid_kernel k2 -> parse_kernel (print_kernel k1) = parse_kernel (print_kernel k2) -> k1 = k2.
+Proof. exact NvTraceProofs.parse_print_kernel_exact. Qed.
+Print Assumptions parse_print_kernel_exact.
